@@ -71,7 +71,7 @@ theorem lastLine_spec (hdr ihdr : Bytes) (dir : Dir) (s : Sess) (ys : List Entry
 theorem queries_do_not_write (w : World) (op : Op)
     (hq : match op with
       | .readAll .. | .readFirstN .. | .readN .. | .nLines .. | .lastLine | .len | .isEmpty | .range
-      | .payloadSize | .page .. | .files | .get .. => True
+      | .payloadSize | .flush | .page .. | .files | .get .. => True
       | _ => False) :
     (step w op).1.dir = w.dir := by
   cases op <;> simp only at hq <;> simp only [step, withSess, finish]
